@@ -3,6 +3,9 @@
 package hdf5
 
 import (
+	"encoding/binary"
+	"os"
+
 	"github.com/scigolib/hdf5/internal/core"
 	"github.com/scigolib/hdf5/internal/vrt"
 )
@@ -79,5 +82,71 @@ func VerifH_C12_api_vlen_int32() {
 		vrt.Assert(len(got) == 0, "vlen-numeric-read-returns-different-values")
 	}
 	vrt.Covered("vlen-compared")
+	_ = f.Close()
+}
+
+// verifVLenElements resolves the stored 16-byte references of a 1-D variable-length dataset through the library's
+// own global-heap reader (the library has no public vlen dataset read).
+func verifVLenElements(d *Dataset, n int) ([][]byte, error) {
+	h, err := core.ReadObjectHeader(d.file.osFile, d.address, d.file.sb)
+	if err != nil {
+		return nil, err
+	}
+	var layout *core.DataLayoutMessage
+	for _, m := range h.Messages {
+		if m.Type == core.MsgDataLayout {
+			layout, err = core.ParseDataLayoutMessage(m.Data, d.file.sb)
+			if err != nil {
+				return nil, err
+			}
+		}
+	}
+	if layout == nil {
+		return nil, os.ErrNotExist
+	}
+	raw := make([]byte, 16*n)
+	if _, err := d.file.osFile.ReadAt(raw, int64(layout.DataAddress)); err != nil {
+		return nil, err
+	}
+	out := make([][]byte, n)
+	for i := 0; i < n; i++ {
+		ref := raw[16*i : 16*i+16]
+		addr := binary.LittleEndian.Uint64(ref[0:8])
+		idx := binary.LittleEndian.Uint32(ref[8:12])
+		col, err := core.ReadGlobalHeapCollection(d.file.osFile, addr, 8)
+		if err != nil {
+			return nil, err
+		}
+		obj, err := col.GetObject(idx)
+		if err != nil {
+			return nil, err
+		}
+		out[i] = obj.Data
+	}
+	return out, nil
+}
+
+// elements that fill a heap collection exactly or just overflow it (lengths forked around 4048 and 4064..4081), followed
+// by an empty and a short element; bytes symbolic at a few positions. Close must not panic; every element reads back.
+func VerifH_C12_api_vlen_collection_boundary() {
+	vrt.LoopBound(20000)
+	lens := []int{4047, 4048, 4049, 4063, 4064, 4065, 4072, 4080, 4081}
+	L := lens[vrt.Choice(len(lens))]
+	big := make([]byte, L)
+	for i := range big {
+		big[i] = 'a' + byte(i%23)
+	}
+	big[0], big[L-1] = 'A'+vrt.U8()%26, 'A'+vrt.U8()%26
+	second := []string{"", "t", "tail"}[vrt.Choice(3)]
+	data := []string{string(big), second, "z"}
+	f, d := verifWriteReopen("c12b.h5", 2, VLenString, []uint64{3}, data)
+	elems, err := verifVLenElements(d, 3)
+	vrt.AssertNoErr(err, "vlen-elements-resolve")
+	if err == nil {
+		for i := range data {
+			vrt.Assert(string(elems[i]) == data[i], "vlen-element-bytes-exact")
+		}
+	}
+	vrt.Covered("vlen-boundary-compared")
 	_ = f.Close()
 }
